@@ -508,3 +508,149 @@ impl Family for C14Shared {
     RunOut { fingerprint: crate::seq::fp(&history), res, violations: v, invalid: false, reach, history }
   }
 }
+
+
+// ================================================================================================
+// several threads subscribe the same Observable value at the same time
+
+/// One pipeline value over cold deterministic sources, subscribed by 2..3 threads at once. Each
+/// subscriber must receive exactly what a subscriber of a freshly built copy receives alone, and
+/// the functions handed to `start` / `defer` run once per subscription.
+pub struct C14Thr;
+
+impl Family for C14Thr {
+  fn name(&self) -> &'static str {
+    "c14-concurrent-subscriptions"
+  }
+  fn threaded(&self) -> bool {
+    true
+  }
+  fn gen(&self, rng: &mut Rng, _tier: Tier) -> Json {
+    let nsrc = rng.range(1, 2) as usize;
+    let depth = rng.range(0, 2) as u32;
+    // no resubscribing operators here: over a cold source that fails they may never end
+    let ops: Vec<&str> = OPS.iter().copied().filter(|o| !["retry", "retry_when"].contains(o)).collect();
+    let g = pipe::GenCfg { nsrc, unary: &ops, multi: pipe::MULTI, trig: &["take_until", "skip_until", "sample"], news: &["just", "from_iter", "empty", "range", "start", "start"], max_depth: depth };
+    let mut next_src = 0;
+    let mut pipeline = pipe::gen_node(rng, &g, depth, &mut next_src);
+    if rng.below(4) == 0 {
+      pipeline = Json::obj(vec![("new", Json::str("start")), ("a", Json::Int(rng.below(8) as i64 + 50))]);
+    }
+    let sources: Vec<Json> = (0..nsrc).map(|i| Json::obj(vec![("mode", Json::str("cold")), ("scripts", Json::arr([gen_script(rng, (i as i64 + 1) * 100, 3, false)].iter(), |s| script_to_json(s)))])).collect();
+    Json::obj(vec![
+      ("pipeline", pipeline),
+      ("sources", Json::Arr(sources)),
+      ("threads", Json::Int(rng.range(2, 3) as i64)),
+      ("waits", Json::Arr((0..3).map(|_| Json::Int(rng.below(5) as i64)).collect())),
+    ])
+  }
+  fn exec(&self, w: &Json, cfg: RunCfg) -> RunOut {
+    let pipeline = match w.get("pipeline") {
+      Some(p) => p.clone(),
+      None => return RunOut::invalid(),
+    };
+    let mut scripts: Vec<Vec<Step>> = Vec::new();
+    for s in w.a("sources") {
+      if s.s("mode") != "cold" {
+        return RunOut::invalid();
+      }
+      match s.a("scripts").first().and_then(script_from_json) {
+        Some(sc) if sc.len() <= 6 => scripts.push(sc),
+        _ => return RunOut::invalid(),
+      }
+    }
+    let nthreads = w.i("threads");
+    if scripts.is_empty() || scripts.len() > 3 || !(2..=3).contains(&nthreads) {
+      return RunOut::invalid();
+    }
+    {
+      let mut used = Vec::new();
+      pipe::sources_used(&pipeline, scripts.len(), &mut used);
+      if used.iter().any(|i| *i >= scripts.len()) {
+        return RunOut::invalid();
+      }
+    }
+    let waits: Vec<i64> = w.a("waits").iter().map(|x| x.as_i64().unwrap_or(0).clamp(0, 20)).collect();
+    let build = {
+      let (pipeline, scripts) = (pipeline.clone(), scripts.clone());
+      move || -> Option<(Observable<'static, Val>, pipe::Ctx)> {
+        let obs = scripts.iter().map(|sc| cold_source(vec![sc.clone()], Arc::new(Mutex::new(SrcLog::default())), None, false)).collect();
+        let ctx = pipe::Ctx::new(obs);
+        pipe::build(&pipeline, &ctx).map(|o| (o, ctx))
+      }
+    };
+    // reference: a fresh copy subscribed once, alone
+    let rec_ref = Recorder::new();
+    let ref_calls = Arc::new(Mutex::new(0u64));
+    let (rr, b0, rc2) = (rec_ref.clone(), build.clone(), ref_calls.clone());
+    let mut c0 = cfg.clone();
+    c0.step_budget = 40_000;
+    let built = Arc::new(Mutex::new(false));
+    let built2 = built.clone();
+    let res0 = rt::run(c0.clone(), move || {
+      if let Some((o, ctx)) = b0() {
+        *built2.lock().unwrap() = true;
+        let _s = rr.subscribe(&o);
+        rt::quiesce();
+        *rc2.lock().unwrap() = *ctx.factory_calls.lock().unwrap();
+      }
+    });
+    if !*built.lock().unwrap() {
+      return RunOut::invalid();
+    }
+    // a pipeline that does not run to its end alone is not judged here
+    if !res0.outcome.is_ok() {
+      let history = vec![format!("reference run: {}", res0.outcome.describe())];
+      return RunOut { fingerprint: crate::seq::fp(&history), res: res0, violations: vec![], invalid: false, reach: vec![], history };
+    }
+    let recs: Vec<Recorder> = (0..nthreads).map(|_| Recorder::new()).collect();
+    let calls = Arc::new(Mutex::new(0u64));
+    let (recs2, calls2) = (recs.clone(), calls.clone());
+    let res = rt::run(c0, move || {
+      if let Some((o, ctx)) = build() {
+        let mut hs = Vec::new();
+        for (k, rec) in recs2.iter().enumerate() {
+          let (o, rec, wt) = (o.clone(), rec.clone(), waits.get(k).copied().unwrap_or(0));
+          hs.push(rt::spawn_harness(&format!("subscriber{}", k), move || {
+            for _ in 0..wt {
+              rt::probe("c14-subscriber-wait");
+            }
+            let s = rec.subscribe(&o);
+            std::mem::forget(s);
+          }));
+        }
+        for h in hs {
+          let _ = h.join();
+        }
+        rt::quiesce();
+        *calls2.lock().unwrap() = *ctx.factory_calls.lock().unwrap();
+      }
+    });
+    let blame = blame_of(&pipeline);
+    let pshow = pipe::show(&pipeline);
+    let show = |x: &[Ev]| x.iter().map(|e| e.show()).collect::<Vec<_>>().join(" ");
+    let want: Vec<Ev> = rec_ref.events().into_iter().map(|e| e.ev).collect();
+    let mut history = vec![format!("alone: [{}] ({} factory call(s))", show(&want), ref_calls.lock().unwrap())];
+    let mut v = Vec::new();
+    if let Some(o) = outcome_violation(&res, &blame) {
+      v.push(o);
+    } else {
+      for (k, r) in recs.iter().enumerate() {
+        let got: Vec<Ev> = r.events().into_iter().map(|e| e.ev).collect();
+        history.push(format!("subscriber {}: [{}]", k, show(&got)));
+        if got != want {
+          v.push(Violation::new("subscription-not-independent", &blame, format!("pipeline {} subscribed by {} threads at once: subscriber {} received [{}], alone it receives [{}]", pshow, nthreads, k, show(&got), show(&want))));
+        }
+      }
+      let (c, c1) = (*calls.lock().unwrap(), *ref_calls.lock().unwrap());
+      history.push(format!("factory calls: {}", c));
+      if c != c1 * nthreads as u64 {
+        v.push(Violation::new("side-effects-differ", &blame, format!("pipeline {} subscribed by {} threads at once: the functions handed to start / defer ran {} time(s), alone they run {} time(s) per subscription", pshow, nthreads, c, c1)));
+      }
+    }
+    RunOut { fingerprint: crate::seq::fp(&history), res, violations: v, invalid: false, reach: vec![], history }
+  }
+  fn shrink(&self, w: &Json) -> Vec<Json> {
+    shrink_pipeline_field(w)
+  }
+}
